@@ -692,6 +692,14 @@ def c15_prune(ex, S, T):
         has_deliv = Or(*[And(d.exists, ex.eq(d.v['message_id'], m.v['id'])) for d in S.pre['Delivery']])
         out.append(('only-undelivered-old-messages-removed[%d]' % i, Implies(removed, And(Not(has_deliv), m.v['published_at'] <= tN - age))))
         out.append(('surviving-message-unchanged[%d]' % i, Implies(q.exists, row_same(ex, m, q))))
+    if job == 'prune_completed_messages':
+        # progress: a round with a limit of at least one removes something whenever a message is reclaimable - a round that removes
+        # nothing leaves the state as it was, so every later round does the same and the job never converges (live messages, older or
+        # not, must not use up the batch)
+        recl = [And(m.exists, m.v['published_at'] <= t0 - age,
+                    Not(Or(*[And(d.exists, ex.eq(d.v['message_id'], m.v['id'])) for d in S.pre['Delivery']]))) for m in S.pre['Message']]
+        gone = [And(m.exists, Not(S.post['Message'][i].exists)) for i, m in enumerate(S.pre['Message'])]
+        out.append(('reclaimable-message-means-progress', Implies(And(Or(*recl), a['max_delete'] >= 1), Or(*gone))))
     for j, s in enumerate(S.pre['Subscription']):
         q = S.post['Subscription'][j]
         removed = And(s.exists, Not(q.exists))
